@@ -194,7 +194,7 @@ Lemma beq_bytes_refl' v : beq_bytes v v = true.
 Proof. apply beq_bytes_eq. reflexivity. Qed.
 
 (* a created subtree and the deletion of the same subtree cancel *)
-Lemma undo_cd (Hnouo : schema_nouo = true) b : wf_node sch b = true ->
+Lemma undo_cd b : wf_node sch b = true ->
   forall inh_s os inh_t ot l1 l2,
   eff_op inh_s os = Some OpDelete -> eff_op inh_t ot = Some OpCreate ->
   (forall x, In x l1 -> dd_id sch x <> inst_id sch b) ->
@@ -209,7 +209,7 @@ Proof.
     by (destruct (lift (DN s v d m ch)); exact Hs).
   assert (Het : eff_op inh_t (dd_op (dd_set_op (lift (DN s v d m ch)) ot)) = Some OpCreate)
     by (destruct (lift (DN s v d m ch)); exact Ht).
-  rewrite (merge_r_found inh_s _ inh_t l1 _ l2 i OpDelete OpCreate (nouo_all Hnouo _) Hes (Hids os) (Hids ot) Hl1 Het).
+  rewrite (merge_r_found inh_s (dd_set_op (lift (DN s v d m ch)) os) inh_t l1 _ l2 i OpDelete OpCreate (wn_uo _ _ _ _ _ _ W : userordered sch (dd_sid (dd_set_op (lift (DN s v d m ch)) os)) = false) Hes (Hids os) (Hids ot) Hl1 Het).
   rewrite lift_unfold. cbn [dd_set_op]. set (fl := d && forallb dd_dflt (map lift ch)).
   unfold merge_delete.
   cbn [dd_is_term dd_sid dd_val dd_dflt dd_op dd_oval dd_odflt dd_ch dd_set_op dd_set_odflt dd_set_ch].
@@ -263,7 +263,7 @@ Proof.
 Qed.
 
 (* a deleted subtree and the creation of the same subtree cancel *)
-Lemma undo_dc (Hnouo : schema_nouo = true) b : wf_node sch b = true ->
+Lemma undo_dc b : wf_node sch b = true ->
   forall inh_s os inh_t ot l1 l2,
   eff_op inh_s os = Some OpCreate -> eff_op inh_t ot = Some OpDelete ->
   (forall x, In x l1 -> dd_id sch x <> inst_id sch b) ->
@@ -278,7 +278,7 @@ Proof.
     by (destruct (lift (DN s v d m ch)); exact Hs).
   assert (Het : eff_op inh_t (dd_op (dd_set_op (lift (DN s v d m ch)) ot)) = Some OpDelete)
     by (destruct (lift (DN s v d m ch)); exact Ht).
-  rewrite (merge_r_found inh_s _ inh_t l1 _ l2 i OpCreate OpDelete (nouo_all Hnouo _) Hes (Hids os) (Hids ot) Hl1 Het).
+  rewrite (merge_r_found inh_s (dd_set_op (lift (DN s v d m ch)) os) inh_t l1 _ l2 i OpCreate OpDelete (wn_uo _ _ _ _ _ _ W : userordered sch (dd_sid (dd_set_op (lift (DN s v d m ch)) os)) = false) Hes (Hids os) (Hids ot) Hl1 Het).
   rewrite lift_unfold. cbn [dd_set_op]. set (fl := d && forallb dd_dflt (map lift ch)).
   unfold merge_create.
   cbn [dd_sid dd_val dd_dflt dd_op dd_oval dd_odflt dd_ch dd_set_op].
@@ -589,10 +589,37 @@ Proof. destruct n; reflexivity. Qed.
 Lemma d_sid_set_ch' n c f : d_sid (set_dflt (set_ch n c) f) = d_sid n.
 Proof. destruct n; reflexivity. Qed.
 
-Theorem undo_node (Hnouo : schema_nouo = true) s :
-  forall inh_s inh_t t oa ob, Sp sch inh_s s ob oa -> Sp sch inh_t t oa ob -> UndoPair inh_s inh_t s t.
+(* a diff node about well-formed instances is not a user-ordered one: the only place the schema as a whole was needed *)
+Definition OWf (o : option dnode) : Prop := forall n, o = Some n -> wf_node sch n = true.
+
+Lemma wf_nouo n : wf_node sch n = true -> userordered sch (d_sid n) = false.
+Proof. destruct n as [s v d m ch]. intro H. exact (wn_uo _ _ _ _ _ _ (wf_node_inv sch _ _ _ _ _ H)). Qed.
+
+Lemma sp_sid_nouo inh d oa ob : Sp sch inh d oa ob -> OWf oa -> OWf ob -> userordered sch (dd_sid d) = false.
 Proof.
-  induction s as [ss vs fs ops ods ovs chs IH] using dd_ind'. intros inh_s inh_t t oa ob Hs Ht.
+  intros H Wa Wb. destruct H as [inh d a i He Hi Hd Hw|inh d b i He Hi Hd Hw|inh d a i He Hk Hdi Hi Hs|inh d a i He Ht Hdi Hi|
+                                  inh d a i chb He Ht Hdi Hi Hs].
+  - rewrite Hd, dd_sid_set_op, dd_sid_lift. apply wf_nouo, Hw.
+  - rewrite Hd, dd_sid_set_op, dd_sid_lift. apply wf_nouo, Hw.
+  - rewrite <- Hs. apply wf_nouo, Wa. reflexivity.
+  - rewrite <- (dd_sid_of_id _ _ Hdi), (inst_id_sid sch _ _ Hi). apply wf_nouo, Wa. reflexivity.
+  - rewrite <- Hs. apply wf_nouo, Wa. reflexivity.
+Qed.
+
+Lemma wf_in_children a x : wf_node sch a = true -> In x (d_ch a) -> wf_node sch x = true.
+Proof.
+  destruct a as [s v d m ch]. intros H Hx. pose proof (wn_ch _ _ _ _ _ _ (wf_node_inv sch _ _ _ _ _ H)) as Hc.
+  rewrite forallb_forall in Hc. apply Hc. exact Hx.
+Qed.
+
+Lemma find_match_owf f i : (forall x, In x f -> wf_node sch x = true) -> OWf (find_match sch true f (Some i)).
+Proof. intros H n E. apply H. apply (find_match_true_inv sch f i n E). Qed.
+
+Theorem undo_node s :
+  forall inh_s inh_t t oa ob, OWf oa -> OWf ob -> Sp sch inh_s s ob oa -> Sp sch inh_t t oa ob -> UndoPair inh_s inh_t s t.
+Proof.
+  induction s as [ss vs fs ops ods ovs chs IH] using dd_ind'. intros inh_s inh_t t oa ob Woa Wob Hs Ht.
+  pose proof (sp_sid_nouo _ _ _ _ Hs Wob Woa) as Hnouo. cbn [dd_sid] in Hnouo.
   destruct oa as [a|], ob as [b|].
   - (* the instance exists on both sides *)
     destruct (sp_inv_ss _ _ _ _ Hs) as [[i S]|[[i S]|[i [cha S]]]];
@@ -609,7 +636,7 @@ Proof.
       destruct t as [st vt ft opt odt ovt cht]. cbn [dd_op dd_sid dd_val dd_dflt dd_oval dd_odflt dd_ch] in *. subst ovt odt cht.
       rewrite (merge_r_found inh_s (DD ss vs fs ops (Some (d_dflt b)) (Some (d_val b)) []) inh_t l1
                              (DD st vt ft opt (Some (d_dflt a)) (Some (d_val a)) []) l2 i OpReplace OpReplace
-                             (nouo_all Hnouo _) Se Sid Tid Hl1 Te).
+                             Hnouo Se Sid Tid Hl1 Te).
       unfold merge_replace, dd_change_term, dd_merge_dflt_flag.
       cbn [dd_sid dd_val dd_dflt dd_op dd_oval dd_odflt dd_ch dd_set_op dd_set_val dd_set_dflt dd_set_oval].
       rewrite Tk, Eva in *. rewrite Tne, beq_bytes_refl'.
@@ -633,7 +660,7 @@ Proof.
       destruct t as [st vt ft opt odt ovt cht]. cbn [dd_op dd_sid dd_val dd_dflt dd_oval dd_odflt dd_ch] in *. subst odt cht.
       rewrite (merge_r_found inh_s (DD ss vs fs ops (Some (d_dflt b)) ovs []) inh_t l1
                              (DD st vt ft opt (Some (d_dflt a)) ovt []) l2 i OpNone OpNone
-                             (nouo_all Hnouo _) Se Sid Tid Hl1 Te).
+                             Hnouo Se Sid Tid Hl1 Te).
       unfold merge_none, dd_is_term, dd_merge_dflt_flag. cbn [dd_sid dd_dflt]. rewrite St.
       cbn [dd_set_dflt merge_children dd_ch dd_dflt dd_set_ch dd_op].
       unfold is_redundant, dd_is_term. cbn [dd_sid dd_odflt dd_dflt dd_op]. rewrite Te, Tt, Efa, Bool.eqb_reflx.
@@ -650,6 +677,10 @@ Proof.
       destruct T as [Te [Tt [Tid [Ta [Tsid [Tnk [Tlev [TSa [TAa [TSb [TAb [Tnkey Tb]]]]]]]]]]]].
       assert (Echa : d_ch a = cha) by (rewrite Sa, d_ch_set_dflt', d_ch_set_ch'; reflexivity).
       assert (Echb : d_ch b = chb) by (rewrite Tb, d_ch_set_dflt', d_ch_set_ch'; reflexivity).
+      assert (Wcha : forall x, In x cha -> wf_node sch x = true).
+      { intros x Hx. apply (wf_in_children a); [apply Woa; reflexivity|rewrite Echa; exact Hx]. }
+      assert (Wchb : forall x, In x chb -> wf_node sch x = true).
+      { intros x Hx. apply (wf_in_children b); [apply Wob; reflexivity|rewrite Echb; exact Hx]. }
       assert (Ei : i' = i).
       { assert (E1 : inst_id sch (set_ch b cha) = Some i') by (rewrite Sa, inst_id_set_dflt in Ta; exact Ta).
         (* same schema node, and the identity of b and of a are tied by the two diffs: use the sids and the fact that
@@ -659,7 +690,7 @@ Proof.
       subst i'. intros l1 l2 Hl1. rewrite Tid in Hl1.
       destruct t as [st vt ft opt odt ovt cht]. cbn [dd_op dd_sid dd_val dd_dflt dd_oval dd_odflt dd_ch] in *.
       rewrite (merge_r_found inh_s (DD ss vs fs ops ods ovs chs) inh_t l1 (DD st vt ft opt odt ovt cht) l2 i OpNone OpNone
-                             (nouo_all Hnouo _) Se Sid Tid Hl1 Te).
+                             Hnouo Se Sid Tid Hl1 Te).
       unfold merge_none, dd_is_term. cbn [dd_sid dd_dflt]. rewrite St. cbn [dd_ch dd_dflt dd_op].
       destruct Slev as [its_s [unch_s [Eds_s [Hsp_s [Hnd_s [Hpa_s Hpb_s]]]]]].
       destruct Tlev as [its_t [unch_t [Eds_t [Hsp_t [Hnd_t [Hpa_t Hpb_t]]]]]].
@@ -698,6 +729,8 @@ Proof.
         destruct (LS its' j Hits' Hj) as [La Lb]. destruct (LT itt' j Hitt' Hj') as [La' Lb'].
         apply (IH (it_d its')) with (oa := find_match sch true cha (Some j)) (ob := find_match sch true chb (Some j)).
         -- apply (dd_nokeys_in sch). rewrite Eds_s. apply in_map. exact Hits'.
+        -- apply find_match_owf, Wcha.
+        -- apply find_match_owf, Wchb.
         -- rewrite <- La, <- Lb. apply Hsp_s, Hits'.
         -- rewrite <- La', <- Lb'. apply Hsp_t, Hitt'.
       * (* the keys of the target are about other identities *)
@@ -714,19 +747,20 @@ Proof.
     inversion Hs as [| inh0 d0 b0 i He Hb Hdd Hwf | | |]; subst.
     inversion Ht as [inh0 d0 b0 i' He' Hb' Hdd' Hwf' | | | |]; subst.
     intros l1 l2 Hl1. rewrite Hdd. rewrite Hdd' in Hl1 |- *.
-    apply (undo_dc Hnouo a Hwf); [exact He|exact He'|].
+    apply (undo_dc a Hwf); [exact He|exact He'|].
     rewrite dd_id_set_op, dd_id_lift in Hl1; assumption.
   - (* the instance exists in the second tree only: the source deletes what the target creates *)
     inversion Hs as [inh0 d0 b0 i He Hb Hdd Hwf | | | |]; subst.
     inversion Ht as [| inh0 d0 b0 i' He' Hb' Hdd' Hwf' | | |]; subst.
     intros l1 l2 Hl1. rewrite Hdd. rewrite Hdd' in Hl1 |- *.
-    apply (undo_cd Hnouo b Hwf); [exact He|exact He'|].
+    apply (undo_cd b Hwf); [exact He|exact He'|].
     rewrite dd_id_set_op, dd_id_lift in Hl1; assumption.
   - exfalso. destruct (sp_sides _ _ _ _ _ Hs) as [H|H]; apply H; reflexivity.
 Qed.
 
 (* one level: the diff nodes of [fb becomes fa] remove the diff nodes of [fa becomes fb] *)
-Lemma undo_level (Hnouo : schema_nouo = true) inh_s inh_t np oup K its_s unch_s its_t unch_t fa fb fl up :
+Lemma undo_level inh_s inh_t np oup K its_s unch_s its_t unch_t fa fb fl up :
+  (forall x, In x fa -> wf_node sch x = true) -> (forall x, In x fb -> wf_node sch x = true) ->
   Forall (fun it => Sp sch inh_s (it_d it) (it_a it) (it_b it)) its_s -> NoDup (itIds sch its_s) ->
   Permutation fb (itA its_s ++ unch_s) -> Permutation fa (itB its_s ++ unch_s) ->
   Forall (fun it => Sp sch inh_t (it_d it) (it_a it) (it_b it)) its_t -> NoDup (itIds sch its_t) ->
@@ -737,7 +771,7 @@ Lemma undo_level (Hnouo : schema_nouo = true) inh_s inh_t np oup K its_s unch_s 
     merge_children sch (fun c cur' => merge_r sch mdflt inh_s c inh_t cur') np oup false (map it_d its_s)
                    (K ++ map it_d its_t) fl up = Ok (K, fl', ups).
 Proof.
-  intros Hsp_s Hnd_s Hpa_s Hpb_s Hsp_t Hnd_t Hpa_t Hpb_t Na Nb HK.
+  intros Wfa Wfb Hsp_s Hnd_s Hpa_s Hpb_s Hsp_t Hnd_t Hpa_t Hpb_t Na Nb HK.
   assert (LS : forall it j, In it its_s -> dd_id sch (it_d it) = Some j ->
              it_a it = find_match sch true fb (Some j) /\ it_b it = find_match sch true fa (Some j)).
   { intros it j Hit Hj. apply (level_lookup inh_s its_s unch_s fb fa it j); assumption. }
@@ -764,7 +798,9 @@ Proof.
     destruct (sp_ids _ _ _ _ (Hsp_s its' Hits')) as [j [Hj _]].
     assert (Hj' : dd_id sch (it_d itt') = Some j) by congruence.
     destruct (LS its' j Hits' Hj) as [La Lb]. destruct (LT itt' j Hitt' Hj') as [La' Lb'].
-    apply (undo_node Hnouo (it_d its')) with (oa := find_match sch true fa (Some j)) (ob := find_match sch true fb (Some j)).
+    apply (undo_node (it_d its')) with (oa := find_match sch true fa (Some j)) (ob := find_match sch true fb (Some j)).
+    + apply find_match_owf, Wfa.
+    + apply find_match_owf, Wfb.
     + rewrite <- La, <- Lb. apply Hsp_s, Hits'.
     + rewrite <- La', <- Lb'. apply Hsp_t, Hitt'.
   - exact HK.
@@ -782,7 +818,10 @@ Proof.
 Qed.
 
 (* C13: merging the diff that undoes the changes into the diff leaves an empty diff *)
-Theorem merge_undo (Hnouo : schema_nouo = true) fa fb : wfb sch fa = true -> wfb sch fb = true ->
+Lemma wfb_forall f : wfb sch f = true -> forall x, In x f -> wf_node sch x = true.
+Proof. intros H x Hx. pose proof (ws_nodes _ _ (wfb_sibs sch _ H)) as Hn. rewrite forallb_forall in Hn. apply Hn, Hx. Qed.
+
+Theorem merge_undo fa fb : wfb sch fa = true -> wfb sch fb = true ->
   exists d1 d2, diff sch true fa fb = Ok d1 /\ diff sch true fb fa = Ok d2 /\ merge sch mdflt (map redup d1) d2 = Ok [].
 Proof.
   intros Ha Hb. destruct (diff_sp sch fa fb Ha Hb) as [d1 [E1 Hsp1]]. destruct (diff_sp sch fb fa Hb Ha) as [d2 [E2 Hsp2]].
@@ -793,7 +832,7 @@ Proof.
   destruct Hsp1' as [its_t [unch_t [Eds_t [Hsp_t [Hnd_t [Hpa_t Hpb_t]]]]]].
   destruct Hsp2 as [its_s [unch_s [Eds_s [Hsp_s [Hnd_s [Hpa_s Hpb_s]]]]]].
   pose proof (wfb_sibs sch _ Ha) as Wa. pose proof (wfb_sibs sch _ Hb) as Wb.
-  destruct (undo_level Hnouo None None false false [] its_s unch_s its_t unch_t fa fb false [] Hsp_s Hnd_s Hpa_s Hpb_s
+  destruct (undo_level None None false false [] its_s unch_s its_t unch_t fa fb false [] (wfb_forall _ Ha) (wfb_forall _ Hb) Hsp_s Hnd_s Hpa_s Hpb_s
                        Hsp_t Hnd_t Hpa_t Hpb_t (so_nodup _ _ (ws_sibs _ _ Wa)) (so_nodup _ _ (ws_sibs _ _ Wb)))
     as [fl' [ups E]]; [intros k t []|].
   unfold merge. rewrite Eds_s, Eds_t. cbn [app] in E. apply (merge_roots_children _ _ _ _ _ _ _ _ _ E).
@@ -872,25 +911,27 @@ Lemma dd_op_redup d : dd_op (redup d) = dd_op d.
 Proof. destruct d; reflexivity. Qed.
 
 (* every source root about an identity the diff does not hold yet is added *)
-Lemma merge_add_all (Hnouo : schema_nouo = true) : forall its2 ts,
-  Forall (fun it => Sp sch None (it_d it) (it_a it) (it_b it)) its2 -> NoDup (itIds sch its2) ->
+Lemma merge_add_all : forall its2 ts,
+  Forall (fun it => Sp sch None (it_d it) (it_a it) (it_b it)) its2 ->
+  Forall (fun it => OWf (it_a it) /\ OWf (it_b it)) its2 -> NoDup (itIds sch its2) ->
   (forall it x, In it its2 -> In x ts -> dd_id sch x <> dd_id sch (it_d it)) ->
   exists ts', merge_roots sch mdflt (map it_d its2) ts = Ok ts' /\
               Permutation ts' (map (fun it => redup (it_d it)) its2 ++ ts).
 Proof.
-  induction its2 as [|it its2 IH]; intros ts Hsp Hnd Hdis.
+  induction its2 as [|it its2 IH]; intros ts Hsp Hwf Hnd Hdis.
   - exists ts. split; reflexivity.
   - pose proof (Forall_inv Hsp) as Hs. pose proof (Forall_inv_tail Hsp) as Hsp'.
+    pose proof (Forall_inv Hwf) as [Wia Wib]. pose proof (Forall_inv_tail Hwf) as Hwf'.
     destruct (sp_ids _ _ _ _ Hs) as [i [Hi _]]. destruct (sp_eff _ _ _ _ Hs) as [e He].
     assert (Hop : dd_op (it_d it) = Some e) by (destruct (dd_op (it_d it)); cbn in He; congruence).
     cbn [map merge_roots].
-    rewrite (merge_r_add None (it_d it) None ts i e (nouo_all Hnouo _) He Hi).
+    rewrite (merge_r_add None (it_d it) None ts i e (sp_sid_nouo _ _ _ _ Hs Wia Wib) He Hi).
     2:{ intros x Hx. rewrite <- Hi. apply (Hdis it x (or_introl eq_refl) Hx). }
     cbn zeta. rewrite (sp_not_redundant None _ _ _ e Hs He).
     assert (En : dd_set_op (redup (it_d it)) (Some e) = redup (it_d it)).
     { rewrite <- Hop, <- dd_op_redup. apply dd_set_op_same. }
     rewrite En. cbn [itIds map] in Hnd. inversion Hnd as [|? ? Hnot Hnd']; subst.
-    destruct (IH (dd_ins_last ts (redup (it_d it))) Hsp' Hnd') as [ts' [E Hp]].
+    destruct (IH (dd_ins_last ts (redup (it_d it))) Hsp' Hwf' Hnd') as [ts' [E Hp]].
     + intros it' x Hit' Hx. apply (Permutation_in _ (dd_ins_last_perm ts _)) in Hx. destruct Hx as [<-|Hx].
       * rewrite dd_id_redup. intro Eq. apply Hnot. rewrite Eq. apply in_map_iff. exists it'. split; [reflexivity|exact Hit'].
       * apply (Hdis it' x); [right; exact Hit'|exact Hx].
@@ -898,7 +939,7 @@ Proof.
 Qed.
 
 (* C13, composition of changes that touch different top-level identities *)
-Theorem merge_apply_disjoint (Hnouo : schema_nouo = true) fa fb fc d1 d2 :
+Theorem merge_apply_disjoint fa fb fc d1 d2 :
   wfb sch fa = true -> wfb sch fb = true -> wfb sch fc = true ->
   diff sch true fa fb = Ok d1 -> diff sch true fb fc = Ok d2 ->
   (forall s t, In s d2 -> In t d1 -> dd_id sch s <> dd_id sch t) ->
@@ -919,7 +960,13 @@ Proof.
   { intros it2 it1 H2 H1. assert (Hin1 : In (it_d it1) (map redup d1)) by (rewrite Eds1; apply in_map; exact H1).
     apply in_map_iff in Hin1. destruct Hin1 as [t [Et Ht]]. rewrite <- Et, dd_id_redup.
     apply Hdis; [rewrite Eds2; apply in_map; exact H2|exact Ht]. }
-  destruct (merge_add_all Hnouo its2 (map it_d its1) Hs2 Hnd2) as [m [Em Hpm]].
+  assert (Hwf2 : Forall (fun it => OWf (it_a it) /\ OWf (it_b it)) its2).
+  { apply Forall_forall. intros it Hit. split; intros n En.
+    - apply (wfb_forall _ Hb). apply (Permutation_in _ (Permutation_sym PB2)), in_or_app. left.
+      unfold itA. apply in_flat_map. exists it. split; [exact Hit|rewrite En; left; reflexivity].
+    - apply (wfb_forall _ Hc). apply (Permutation_in _ (Permutation_sym PC2)), in_or_app. left.
+      unfold itB. apply in_flat_map. exists it. split; [exact Hit|rewrite En; left; reflexivity]. }
+  destruct (merge_add_all its2 (map it_d its1) Hs2 Hwf2 Hnd2) as [m [Em Hpm]].
   { intros it x Hit Hx. apply in_map_iff in Hx. destruct Hx as [it1 [<- H1]]. intro Eq. apply (Hdis' it it1 Hit H1). symmetry. exact Eq. }
   exists m. split; [unfold merge; rewrite Eds1, Eds2; exact Em|].
   (* the merged diff means [fa becomes fc] *)
@@ -970,4 +1017,325 @@ Proof.
   - rewrite PA1, HU. rewrite <- !app_assoc. apply Permutation_app_swap_app.
   - rewrite PC2, HU', HUU. rewrite <- !app_assoc. reflexivity.
 Qed.
+
+(* ------------------------------------------------------------------------------------------- *)
+(* LevelSp from pointwise facts, and back *)
+
+(* an identity no diff node is about is the same instance (or absent) on both sides *)
+Lemma level_same P its unch fa fb j :
+  Forall (fun it => exists i, dd_id sch (it_d it) = Some i /\ (forall a, it_a it = Some a -> inst_id sch a = Some i) /\
+                              (forall b, it_b it = Some b -> inst_id sch b = Some i) /\ P it) its ->
+  Permutation fa (itA its ++ unch) -> Permutation fb (itB its ++ unch) ->
+  NoDup (ids sch fa) -> NoDup (ids sch fb) ->
+  (forall it, In it its -> dd_id sch (it_d it) <> Some j) ->
+  find_match sch true fa (Some j) = find_match sch true fb (Some j).
+Proof.
+  intros Hits Pa Pb Na Nb Hno. rewrite Forall_forall in Hits.
+  assert (Hab : forall x, In x fa -> inst_id sch x = Some j -> In x fb).
+  { intros x Hx Hj. apply (Permutation_in _ Pa) in Hx. apply in_app_or in Hx. destruct Hx as [Hx|Hx].
+    - exfalso. destruct (in_itA _ _ Hx) as [it [Hit Ea]]. destruct (Hits it Hit) as [i [Hi [Ha _]]].
+      apply (Hno it Hit). rewrite Hi, <- (Ha x Ea). exact Hj.
+    - apply (Permutation_in _ (Permutation_sym Pb)), in_or_app. right. exact Hx. }
+  assert (Hba : forall x, In x fb -> inst_id sch x = Some j -> In x fa).
+  { intros x Hx Hj. apply (Permutation_in _ Pb) in Hx. apply in_app_or in Hx. destruct Hx as [Hx|Hx].
+    - exfalso. destruct (in_itB _ _ Hx) as [it [Hit Eb]]. destruct (Hits it Hit) as [i [Hi [_ [Hb _]]]].
+      apply (Hno it Hit). rewrite Hi, <- (Hb x Eb). exact Hj.
+    - apply (Permutation_in _ (Permutation_sym Pa)), in_or_app. right. exact Hx. }
+  destruct (find_match sch true fa (Some j)) as [x|] eqn:Ea.
+  - destruct (find_match_true_inv sch _ _ _ Ea) as [Hx Hj]. symmetry. apply find_match_true_some; [exact Nb|apply Hab; assumption|exact Hj].
+  - destruct (find_match sch true fb (Some j)) as [y|] eqn:Eb; [|reflexivity].
+    destruct (find_match_true_inv sch _ _ _ Eb) as [Hy Hj]. rewrite (find_match_true_some sch fa j y Na (Hba y Hy Hj) Hj) in Ea. discriminate.
+Qed.
+
+Lemma sp_level_same inh its unch fa fb j :
+  Forall (fun it => Sp sch inh (it_d it) (it_a it) (it_b it)) its ->
+  Permutation fa (itA its ++ unch) -> Permutation fb (itB its ++ unch) ->
+  NoDup (ids sch fa) -> NoDup (ids sch fb) ->
+  (forall it, In it its -> dd_id sch (it_d it) <> Some j) ->
+  find_match sch true fa (Some j) = find_match sch true fb (Some j).
+Proof.
+  intros Hsp. apply (level_same (fun _ => True)). apply Forall_forall. intros it Hit. rewrite Forall_forall in Hsp.
+  destruct (sp_ids _ _ _ _ (Hsp it Hit)) as [i [Hi [Ha Hb]]]. exists i. repeat split; assumption.
+Qed.
+
+Definition in_ds (j : iid) (ds : list dd) : bool := existsb (fun d => has_id sch j (dd_node d)) ds.
+
+Lemma in_ds_true j ds : in_ds j ds = true <-> exists d, In d ds /\ dd_id sch d = Some j.
+Proof.
+  unfold in_ds. rewrite existsb_exists. split; intros [d [Hd H]]; exists d; (split; [exact Hd|]); apply dd_id_iff; exact H.
+Qed.
+
+Definition keepb (ds : list dd) (x : dnode) : bool :=
+  match inst_id sch x with Some j => negb (in_ds j ds) | None => true end.
+
+(* the diff nodes [ds], each about the instances its identity selects on the two sides, and no difference elsewhere *)
+Lemma level_build P ds fa fb :
+  NoDup (map (dd_id sch) ds) -> NoDup (ids sch fa) -> NoDup (ids sch fb) -> AllSome sch fa -> AllSome sch fb ->
+  (forall d, In d ds -> exists j, dd_id sch d = Some j /\
+                                  P d (find_match sch true fa (Some j)) (find_match sch true fb (Some j))) ->
+  (forall j, (forall d, In d ds -> dd_id sch d <> Some j) ->
+             find_match sch true fa (Some j) = find_match sch true fb (Some j)) ->
+  LevelSp sch P ds fa fb.
+Proof.
+  intros Nd Na Nb Sa Sb Hd Hsame.
+  set (idof := fun d => match dd_id sch d with Some j => j | None => IdNode 0 end).
+  set (mk := fun d => mkitem d (find_match sch true fa (Some (idof d))) (find_match sch true fb (Some (idof d)))).
+  assert (Hidof : forall d, In d ds -> dd_id sch d = Some (idof d)).
+  { intros d Hin. destruct (Hd d Hin) as [j [Hj _]]. unfold idof. rewrite Hj. reflexivity. }
+  exists (map mk ds), (filter (keepb ds) fa).
+  split; [rewrite map_map; cbn [it_d mk]; symmetry; apply map_id|].
+  split.
+  { apply Forall_forall. intros it Hit. apply in_map_iff in Hit. destruct Hit as [d [<- Hin]]. cbn [mk it_d it_a it_b].
+    destruct (Hd d Hin) as [j [Hj HP]]. unfold idof. rewrite Hj. exact HP. }
+  split; [unfold itIds; rewrite map_map; cbn [mk it_d]; exact Nd|].
+  (* membership on the two sides *)
+  assert (Hside : forall (f : forest) (sel : item -> option dnode),
+            NoDup (ids sch f) ->
+            (forall d, In d ds -> sel (mk d) = find_match sch true f (Some (idof d))) ->
+            (forall x j, In x fa -> inst_id sch x = Some j -> in_ds j ds = false -> In x f) ->
+            (forall x j, In x f -> inst_id sch x = Some j -> in_ds j ds = false -> In x fa) ->
+            (forall x, In x f -> inst_id sch x <> None) -> (forall x, In x fa -> inst_id sch x <> None) ->
+            Permutation f (flat_map (fun it => opt (sel it)) (map mk ds) ++ filter (keepb ds) fa)).
+  { intros f sel Nf Hsel Hin1 Hin2 Hsf Hsa. apply NoDup_Permutation.
+    - apply (NoDup_map_inv (inst_id sch)). exact Nf.
+    - apply NoDup_app_disjoint.
+      + (* the selected instances: different diff nodes select different identities *)
+        apply (NoDup_map_inv (inst_id sch)).
+        assert (Hincl : forall l, incl l ds -> NoDup (map (dd_id sch) l) ->
+                  NoDup (map (inst_id sch) (flat_map (fun it => opt (sel it)) (map mk l))) /\
+                  (forall o, In o (map (inst_id sch) (flat_map (fun it => opt (sel it)) (map mk l))) -> In o (map (dd_id sch) l))).
+        { induction l as [|d l IHl]; intros Hl Hn; [split; [constructor|intros o []]|].
+          cbn [map] in Hn. inversion Hn as [|? ? Hnot Hn']; subst.
+          destruct (IHl (fun x Hx => Hl x (or_intror Hx)) Hn') as [IH1 IH2].
+          cbn [map flat_map]. rewrite (Hsel d (Hl d (or_introl eq_refl))).
+          destruct (find_match sch true f (Some (idof d))) as [x|] eqn:E; cbn [opt app map].
+          - destruct (find_match_true_inv sch _ _ _ E) as [_ Hx]. rewrite Hx, <- (Hidof d (Hl d (or_introl eq_refl))).
+            split.
+            + constructor; [intro Hi; apply Hnot, IH2, Hi|exact IH1].
+            + intros o [<-|Ho]; [left; reflexivity|right; apply IH2, Ho].
+          - split; [exact IH1|intros o Ho; right; apply IH2, Ho]. }
+        apply (proj1 (Hincl ds (incl_refl _) Nd)).
+      + apply NoDup_filter. apply (NoDup_map_inv (inst_id sch)). exact Na.
+      + intros x Hx1 Hx2. apply in_flat_map in Hx1. destruct Hx1 as [it [Hit Hx1]]. apply in_map_iff in Hit.
+        destruct Hit as [d [<- Hin]]. rewrite (Hsel d Hin) in Hx1.
+        destruct (find_match sch true f (Some (idof d))) as [y|] eqn:E; [|destruct Hx1]. destruct Hx1 as [<-|[]].
+        destruct (find_match_true_inv sch _ _ _ E) as [_ Hy]. apply filter_In in Hx2. destruct Hx2 as [_ Hk].
+        unfold keepb in Hk. rewrite Hy in Hk. apply negb_true_iff in Hk.
+        assert (Ht : in_ds (idof d) ds = true) by (apply in_ds_true; exists d; split; [exact Hin|apply Hidof, Hin]). congruence.
+    - intro x. split.
+      + intro Hx. destruct (inst_id sch x) as [j|] eqn:Ej; [|exfalso; apply (Hsf x Hx Ej)].
+        apply in_or_app. destruct (in_ds j ds) eqn:Ed.
+        * left. apply in_ds_true in Ed. destruct Ed as [d [Hin Hj]]. apply in_flat_map. exists (mk d). split; [apply in_map, Hin|].
+          rewrite (Hsel d Hin). assert (idof d = j) by (unfold idof; rewrite Hj; reflexivity). subst j.
+          rewrite (find_match_true_some sch f _ x Nf Hx Ej). left. reflexivity.
+        * right. apply filter_In. split; [apply (Hin2 x j Hx Ej Ed)|]. unfold keepb. rewrite Ej, Ed. reflexivity.
+      + intro Hx. apply in_app_or in Hx. destruct Hx as [Hx|Hx].
+        * apply in_flat_map in Hx. destruct Hx as [it [Hit Hx]]. apply in_map_iff in Hit. destruct Hit as [d [<- Hin]].
+          rewrite (Hsel d Hin) in Hx. destruct (find_match sch true f (Some (idof d))) as [y|] eqn:E; [|destruct Hx].
+          destruct Hx as [<-|[]]. apply (find_match_true_inv sch _ _ _ E).
+        * apply filter_In in Hx. destruct Hx as [Hxa Hk]. unfold keepb in Hk.
+          destruct (inst_id sch x) as [j|] eqn:Ej; [|exfalso; apply (Hsa x Hxa Ej)].
+          apply negb_true_iff in Hk. apply (Hin1 x j Hxa Ej Hk). }
+  assert (HsA : forall x, In x fa -> inst_id sch x <> None).
+  { intros x Hx E. apply Sa. unfold ids. rewrite <- E. apply in_map, Hx. }
+  assert (HsB : forall x, In x fb -> inst_id sch x <> None).
+  { intros x Hx E. apply Sb. unfold ids. rewrite <- E. apply in_map, Hx. }
+  assert (Hnot : forall j, in_ds j ds = false -> forall d, In d ds -> dd_id sch d <> Some j).
+  { intros j Hf d Hin Hj. assert (Ht : in_ds j ds = true) by (apply in_ds_true; exists d; split; assumption). congruence. }
+  split.
+  - apply (Hside fa it_a Na); try assumption.
+    + intros d Hin. reflexivity.
+    + intros x j Hx _ _. exact Hx.
+    + intros x j Hx _ _. exact Hx.
+  - apply (Hside fb it_b Nb); try assumption.
+    + intros d Hin. reflexivity.
+    + intros x j Hx Hj Hf. pose proof (Hsame j (Hnot j Hf)) as E.
+      rewrite (find_match_true_some sch fa j x Na Hx Hj) in E. symmetry in E. apply (find_match_true_inv sch _ _ _ E).
+    + intros x j Hx Hj Hf. pose proof (Hsame j (Hnot j Hf)) as E.
+      rewrite (find_match_true_some sch fb j x Nb Hx Hj) in E. apply (find_match_true_inv sch _ _ _ E).
+Qed.
+
+(* ------------------------------------------------------------------------------------------- *)
+(* merging roots that either cancel the root they meet or meet none *)
+Definition SrcOk (s : dd) : Prop :=
+  userordered sch (dd_sid s) = false /\
+  exists e i, dd_op s = Some e /\ dd_id sch s = Some i /\ is_redundant sch (Some e) (redup s) = Ok false.
+
+Lemma mix_fold : forall ss ts,
+  NoDup (map (dd_id sch) ss) -> NoDup (map (dd_id sch) ts) ->
+  (forall s, In s ss -> SrcOk s) ->
+  (forall s t, In s ss -> In t ts -> dd_id sch s = dd_id sch t -> UndoPair None None s t) ->
+  exists ts', merge_roots sch mdflt ss ts = Ok ts' /\ NoDup (map (dd_id sch) ts') /\
+    (forall x, In x ts' <->
+       (In x ts /\ (forall s, In s ss -> dd_id sch s <> dd_id sch x)) \/
+       (exists s, In s ss /\ x = redup s /\ (forall t, In t ts -> dd_id sch t <> dd_id sch s))).
+Proof.
+  induction ss as [|s ss IH]; intros ts Ns Nt Hok Hun.
+  - exists ts. split; [reflexivity|]. split; [exact Nt|]. intro x. split.
+    + intro Hx. left. split; [exact Hx|intros s []].
+    + intros [[Hx _]|[s [[] _]]]. exact Hx.
+  - cbn [map] in Ns. inversion Ns as [|? ? Hsnot Ns']; subst.
+    destruct (Hok s (or_introl eq_refl)) as [Huo [e [i [Hop [Hi Hred]]]]].
+    assert (He : eff_op None (dd_op s) = Some e) by (rewrite Hop; reflexivity).
+    cbn [merge_roots].
+    destruct (dd_match_idx sch ts (Some i)) as [k|] eqn:Ek.
+    + (* the root meets one: they cancel *)
+      cbn [dd_match_idx] in Ek. destruct (find_idx_split _ _ _ Ek) as [l1 [t [l2 [-> [_ [Ht Hl1]]]]]].
+      apply dd_id_iff in Ht.
+      assert (Hl1' : forall x, In x l1 -> dd_id sch x <> dd_id sch t).
+      { intros x Hx E. rewrite Ht in E. apply (proj2 (dd_id_iff i x)) in E. rewrite (Hl1 x Hx) in E. discriminate. }
+      destruct (Hun s t (or_introl eq_refl) (in_or_app l1 (t :: l2) t (or_intror (or_introl eq_refl))) (eq_trans Hi (eq_sym Ht)) l1 l2 Hl1')
+        as [sg E]. rewrite E.
+      assert (Nt' : NoDup (map (dd_id sch) (l1 ++ l2))).
+      { rewrite map_app in *. cbn [map] in Nt. apply NoDup_remove_1 in Nt. exact Nt. }
+      assert (Htnot : forall x, In x (l1 ++ l2) -> dd_id sch x <> dd_id sch t).
+      { intros x Hx E'. rewrite map_app in Nt. cbn [map] in Nt. apply NoDup_remove_2 in Nt. apply Nt. rewrite <- map_app, <- E'.
+        apply in_map, Hx. }
+      destruct (IH (l1 ++ l2) Ns' Nt') as [ts' [Em [Nd Hm]]].
+      * intros s' Hs'. apply Hok. right. exact Hs'.
+      * intros s' t' Hs' Ht' Eq. apply Hun; [right; exact Hs'| |exact Eq].
+        apply in_app_or in Ht'. apply in_or_app. destruct Ht'; [left|right; right]; assumption.
+      * exists ts'. split; [exact Em|]. split; [exact Nd|]. intro x. rewrite Hm. split.
+        -- intros [[Hx Hss]|[s' [Hs' [Ex Hts]]]].
+           ++ left. split; [apply in_app_or in Hx; apply in_or_app; destruct Hx; [left|right; right]; assumption|].
+              intros s' [<-|Hs']; [|apply Hss, Hs']. rewrite Hi, <- Ht. intro Eq. apply (Htnot x Hx). symmetry. exact Eq.
+           ++ right. exists s'. split; [right; exact Hs'|]. split; [exact Ex|].
+              intros t' Ht' Eq. apply in_app_or in Ht'. destruct Ht' as [Ht'|[<-|Ht']].
+              ** apply (Hts t'); [apply in_or_app; left; exact Ht'|exact Eq].
+              ** apply Hsnot. rewrite Hi, <- Ht, Eq. apply in_map, Hs'.
+              ** apply (Hts t'); [apply in_or_app; right; exact Ht'|exact Eq].
+        -- intros [[Hx Hss]|[s' [[<-|Hs'] [Ex Hts]]]].
+           ++ left. split.
+              ** apply in_app_or in Hx. destruct Hx as [Hx|[<-|Hx]]; [apply in_or_app; left; exact Hx| |apply in_or_app; right; exact Hx].
+                 exfalso. apply (Hss s (or_introl eq_refl)). rewrite Hi, Ht. reflexivity.
+              ** intros s' Hs'. apply Hss. right. exact Hs'.
+           ++ exfalso. apply (Hts t); [apply in_or_app; right; left; reflexivity|]. rewrite Ht, Hi. reflexivity.
+           ++ right. exists s'. split; [exact Hs'|]. split; [exact Ex|]. intros t' Ht'. apply Hts.
+              apply in_app_or in Ht'. apply in_or_app. destruct Ht'; [left|right; right]; assumption.
+    + (* it meets none: it is added *)
+      assert (Habs : forall x, In x ts -> dd_id sch x <> Some i).
+      { intros x Hx E. cbn [dd_match_idx] in Ek. pose proof (find_idx_none _ _ Ek x Hx) as Hf. apply (proj2 (dd_id_iff i x)) in E. congruence. }
+      rewrite (merge_r_add None s None ts i e Huo He Hi Habs). cbn zeta.
+      assert (En : dd_set_op (redup s) (Some e) = redup s) by (rewrite <- Hop, <- dd_op_redup; apply dd_set_op_same).
+      rewrite En, Hred.
+      assert (Nt' : NoDup (map (dd_id sch) (dd_ins_last ts (redup s)))).
+      { apply (Permutation_NoDup (Permutation_sym (Permutation_map _ (dd_ins_last_perm ts (redup s))))). cbn [map].
+        constructor; [|exact Nt]. rewrite dd_id_redup, Hi. intro Hin. apply in_map_iff in Hin. destruct Hin as [x [Ex Hx]].
+        apply (Habs x Hx Ex). }
+      destruct (IH (dd_ins_last ts (redup s)) Ns' Nt') as [ts' [Em [Nd Hm]]].
+      * intros s' Hs'. apply Hok. right. exact Hs'.
+      * intros s' t' Hs' Ht' Eq. apply (Permutation_in _ (dd_ins_last_perm ts _)) in Ht'. destruct Ht' as [<-|Ht'].
+        -- exfalso. apply Hsnot. rewrite dd_id_redup in Eq. rewrite <- Eq. apply in_map, Hs'.
+        -- apply Hun; [right; exact Hs'|exact Ht'|exact Eq].
+      * exists ts'. split; [exact Em|]. split; [exact Nd|]. intro x. rewrite Hm. split.
+        -- intros [[Hx Hss]|[s' [Hs' [Ex Hts]]]].
+           ++ apply (Permutation_in _ (dd_ins_last_perm ts _)) in Hx. destruct Hx as [<-|Hx].
+              ** right. exists s. split; [left; reflexivity|]. split; [reflexivity|]. intros t' Ht'. rewrite Hi. apply Habs, Ht'.
+              ** left. split; [exact Hx|]. intros s' [<-|Hs']; [|apply Hss, Hs']. rewrite Hi. intro Eq. apply (Habs x Hx). symmetry. exact Eq.
+           ++ right. exists s'. split; [right; exact Hs'|]. split; [exact Ex|]. intros t' Ht'. apply Hts.
+              apply (Permutation_in _ (Permutation_sym (dd_ins_last_perm ts _))). right. exact Ht'.
+        -- intros [[Hx Hss]|[s' [[<-|Hs'] [Ex Hts]]]].
+           ++ left. split; [apply (Permutation_in _ (Permutation_sym (dd_ins_last_perm ts _))); right; exact Hx|].
+              intros s' Hs'. apply Hss. right. exact Hs'.
+           ++ left. split; [apply (Permutation_in _ (Permutation_sym (dd_ins_last_perm ts _))); left; symmetry; exact Ex|].
+              intros s' Hs' Eq. apply Hsnot. rewrite Ex, dd_id_redup in Eq. rewrite <- Eq. apply in_map, Hs'.
+           ++ right. exists s'. split; [exact Hs'|]. split; [exact Ex|]. intros t' Ht'.
+              apply (Permutation_in _ (dd_ins_last_perm ts _)) in Ht'. destruct Ht' as [<-|Ht'].
+              ** rewrite dd_id_redup. intro Eq. apply Hsnot. rewrite Eq. apply in_map, Hs'.
+              ** apply Hts, Ht'.
+Qed.
+
+(* C13, composition: every root of diff(B,C) either meets no root of diff(A,B) or undoes the one it meets.  The two
+   earlier theorems are its ends (no root meets one: merge_apply_disjoint; C = A: merge_undo) *)
+Theorem merge_apply_mixed fa fb fc d1 d2 :
+  wfb sch fa = true -> wfb sch fb = true -> wfb sch fc = true ->
+  diff sch true fa fb = Ok d1 -> diff sch true fb fc = Ok d2 ->
+  (forall s t j, In s d2 -> In t d1 -> dd_id sch s = Some j -> dd_id sch t = Some j ->
+                 find_match sch true fc (Some j) = find_match sch true fa (Some j)) ->
+  exists m, merge sch mdflt (map redup d1) d2 = Ok m /\ apply sch m fa = Ok fc.
+Proof.
+  intros Ha Hb Hc E1 E2 Hmeet.
+  destruct (diff_sp sch fa fb Ha Hb) as [d1' [E1' Hsp1]]. assert (d1' = d1) by congruence. subst d1'.
+  destruct (diff_sp sch fb fc Hb Hc) as [d2' [E2' Hsp2]]. assert (d2' = d2) by congruence. subst d2'.
+  assert (Hsp1' : LevelSp sch (Sp sch None) (map redup d1) fa fb).
+  { apply (levelsp_map sch (Sp sch None) (Sp sch None) redup); [apply dd_id_redup| |exact Hsp1].
+    intros d oa ob _ H. apply redup_sp. exact H. }
+  destruct Hsp1' as [its1 [unch1 [Eds1 [Hs1 [Hnd1 [PA1 PB1]]]]]].
+  destruct Hsp2 as [its2 [unch2 [Eds2 [Hs2 [Hnd2 [PB2 PC2]]]]]].
+  pose proof (wfb_sibs sch _ Ha) as Wa. pose proof (wfb_sibs sch _ Hb) as Wb. pose proof (wfb_sibs sch _ Hc) as Wc.
+  pose proof (so_nodup _ _ (ws_sibs _ _ Wa)) as Na. pose proof (so_nodup _ _ (ws_sibs _ _ Wb)) as Nb.
+  pose proof (so_nodup _ _ (ws_sibs _ _ Wc)) as Nc.
+  assert (LS1 : forall it j, In it its1 -> dd_id sch (it_d it) = Some j ->
+             it_a it = find_match sch true fa (Some j) /\ it_b it = find_match sch true fb (Some j)).
+  { intros it j Hit Hj. apply (level_lookup None its1 unch1 fa fb it j); assumption. }
+  assert (LS2 : forall it j, In it its2 -> dd_id sch (it_d it) = Some j ->
+             it_a it = find_match sch true fb (Some j) /\ it_b it = find_match sch true fc (Some j)).
+  { intros it j Hit Hj. apply (level_lookup None its2 unch2 fb fc it j); assumption. }
+  pose proof Hs1 as Hs1F. pose proof Hs2 as Hs2F. rewrite Forall_forall in Hs1, Hs2.
+  (* a root of the first diff is a copy of a root of d1 *)
+  assert (Hin1 : forall it1, In it1 its1 -> exists t, In t d1 /\ dd_id sch t = dd_id sch (it_d it1)).
+  { intros it1 H1. assert (Hin : In (it_d it1) (map redup d1)) by (rewrite Eds1; apply in_map; exact H1).
+    apply in_map_iff in Hin. destruct Hin as [t [Et Ht]]. exists t. split; [exact Ht|]. rewrite <- Et, dd_id_redup. reflexivity. }
+  destruct (mix_fold (map it_d its2) (map it_d its1)) as [m [Em [Ndm Hm]]].
+  - rewrite map_map. exact Hnd2.
+  - rewrite map_map. exact Hnd1.
+  - intros s Hs. apply in_map_iff in Hs. destruct Hs as [it [<- Hit]].
+    destruct (sp_ids _ _ _ _ (Hs2 it Hit)) as [j [Hj _]]. destruct (LS2 it j Hit Hj) as [La Lb].
+    destruct (sp_eff _ _ _ _ (Hs2 it Hit)) as [e He].
+    assert (Hop : dd_op (it_d it) = Some e) by (destruct (dd_op (it_d it)); cbn in He; congruence).
+    split.
+    + apply (sp_sid_nouo _ _ _ _ (Hs2 it Hit)); [rewrite La|rewrite Lb]; apply find_match_owf, wfb_forall; assumption.
+    + exists e, j. split; [exact Hop|]. split; [exact Hj|].
+      pose proof (sp_not_redundant None _ _ _ e (Hs2 it Hit) He) as Hr.
+      assert (En : dd_set_op (redup (it_d it)) (Some e) = redup (it_d it)) by (rewrite <- Hop, <- dd_op_redup; apply dd_set_op_same).
+      rewrite En in Hr. exact Hr.
+  - (* the roots that meet cancel *)
+    intros s t Hs Ht Eid. apply in_map_iff in Hs. destruct Hs as [it2 [<- H2]]. apply in_map_iff in Ht. destruct Ht as [it1 [<- H1]].
+    destruct (sp_ids _ _ _ _ (Hs2 it2 H2)) as [j [Hj _]]. assert (Hj1 : dd_id sch (it_d it1) = Some j) by congruence.
+    destruct (LS2 it2 j H2 Hj) as [La2 Lb2]. destruct (LS1 it1 j H1 Hj1) as [La1 Lb1].
+    destruct (Hin1 it1 H1) as [t [Ht Et]].
+    assert (Efc : find_match sch true fc (Some j) = find_match sch true fa (Some j)).
+    { apply (Hmeet (it_d it2) t j); [rewrite Eds2; apply in_map; exact H2|exact Ht|exact Hj|congruence]. }
+    apply (undo_node (it_d it2)) with (oa := find_match sch true fa (Some j)) (ob := find_match sch true fb (Some j)).
+    + apply find_match_owf, wfb_forall, Ha.
+    + apply find_match_owf, wfb_forall, Hb.
+    + rewrite <- Efc, <- La2, <- Lb2. apply Hs2, H2.
+    + rewrite <- La1, <- Lb1. apply Hs1, H1.
+  - exists m. split; [unfold merge; rewrite Eds1, Eds2; exact Em|].
+    apply (apply_level_sp sch m fa fc); [|apply (ws_sibs _ _ Wa)|apply wf_allsome, (ws_nodes _ _ Wa)|apply (ws_sibs _ _ Wc)].
+    apply level_build; try assumption; try (apply wf_allsome; apply ws_nodes; assumption).
+    + (* every merged root says what happens to its identity between A and C *)
+      intros x Hx. apply Hm in Hx. destruct Hx as [[Hx Hss]|[s [Hs [-> Hts]]]].
+      * apply in_map_iff in Hx. destruct Hx as [it1 [<- H1]].
+        destruct (sp_ids _ _ _ _ (Hs1 it1 H1)) as [j [Hj _]]. destruct (LS1 it1 j H1 Hj) as [La Lb]. exists j. split; [exact Hj|].
+        rewrite <- (sp_level_same None its2 unch2 fb fc j Hs2F PB2 PC2 Nb Nc).
+        -- rewrite <- La, <- Lb. apply Hs1, H1.
+        -- intros it2 H2 E. apply (Hss (it_d it2)); [apply in_map; exact H2|congruence].
+      * apply in_map_iff in Hs. destruct Hs as [it2 [<- H2]].
+        destruct (sp_ids _ _ _ _ (Hs2 it2 H2)) as [j [Hj _]]. destruct (LS2 it2 j H2 Hj) as [La Lb]. exists j.
+        split; [rewrite dd_id_redup; exact Hj|].
+        rewrite (sp_level_same None its1 unch1 fa fb j Hs1F PA1 PB1 Na Nb).
+        -- rewrite <- La, <- Lb. apply redup_sp, Hs2, H2.
+        -- intros it1 H1 E. apply (Hts (it_d it1)); [apply in_map; exact H1|congruence].
+    + (* an identity without a merged root: untouched, or changed and changed back *)
+      intros j Hno.
+      destruct (in_ds j (map it_d its1)) eqn:D1; destruct (in_ds j (map it_d its2)) eqn:D2.
+      * apply in_ds_true in D1. destruct D1 as [t1 [Ht1 Hj1]]. apply in_ds_true in D2. destruct D2 as [s2 [Hs2' Hj2]].
+        apply in_map_iff in Ht1. destruct Ht1 as [it1 [<- H1]]. destruct (Hin1 it1 H1) as [t [Ht Et]].
+        symmetry. apply (Hmeet s2 t j); [rewrite Eds2; exact Hs2'|exact Ht|exact Hj2|congruence].
+      * exfalso. apply in_ds_true in D1. destruct D1 as [t1 [Ht1 Hj1]]. apply (Hno t1); [|exact Hj1]. apply Hm. left.
+        split; [exact Ht1|]. intros s Hs E. assert (Ht : in_ds j (map it_d its2) = true) by (apply in_ds_true; exists s; split; [exact Hs|congruence]).
+        congruence.
+      * exfalso. apply in_ds_true in D2. destruct D2 as [s2 [Hs2' Hj2]]. apply (Hno (redup s2)); [|rewrite dd_id_redup; exact Hj2].
+        apply Hm. right. exists s2. split; [exact Hs2'|]. split; [reflexivity|].
+        intros t Ht E. assert (Htt : in_ds j (map it_d its1) = true) by (apply in_ds_true; exists t; split; [exact Ht|congruence]).
+        congruence.
+      * assert (N1 : forall it, In it its1 -> dd_id sch (it_d it) <> Some j).
+        { intros it Hit E. assert (Ht : in_ds j (map it_d its1) = true) by (apply in_ds_true; exists (it_d it); split; [apply in_map; exact Hit|exact E]). congruence. }
+        assert (N2 : forall it, In it its2 -> dd_id sch (it_d it) <> Some j).
+        { intros it Hit E. assert (Ht : in_ds j (map it_d its2) = true) by (apply in_ds_true; exists (it_d it); split; [apply in_map; exact Hit|exact E]). congruence. }
+        rewrite (sp_level_same None its1 unch1 fa fb j Hs1F PA1 PB1 Na Nb N1).
+        apply (sp_level_same None its2 unch2 fb fc j Hs2F PB2 PC2 Nb Nc N2).
+Qed.
+
 End WithSchema.
